@@ -56,6 +56,11 @@ func H_C06_order() {
 	}
 	f, err := fwdtypes.NewInternalForwarding(user1.String())
 	must(err)
+	// the order the payload lists (kept apart from the payload's own slice)
+	ids := make([]core.ActionID, 0, 4)
+	for _, a := range acts {
+		ids = append(ids, a.Id)
+	}
 	err = w.K.Dispatcher().DispatchPayload(w.Ctx, ta, &core.Payload{Forwarding: f, PreActions: acts})
 
 	if order >= 5 {
@@ -73,8 +78,8 @@ func H_C06_order() {
 	feeDenom := ""
 	var swapSaw verif.Z
 	swapSawDenom := ""
-	for _, a := range acts {
-		if a.Id == core.ACTION_FEE {
+	for _, id := range ids {
+		if id == core.ACTION_FEE {
 			fee := verif.ZFloorDiv(verif.ZMul(cur, zB), 10000)
 			if !verif.ZLt(fee, cur) {
 				refused = true
